@@ -1,7 +1,7 @@
 //@ kani expr_enum
 //@ append src/find/mod.rs
 //@ module verif_enum_expr
-//@ harness e_expression kind=enum props=C01,C11 thorough_bound=<<every sequence of 0..=6 symbols over the same 11 symbols>> bound=<<every sequence of 0..=5 symbols over {-true, -false, -print, -printf 1, -quit, !, -a, -o, ',', (, )} (11 symbols, 177156 command lines), evaluated on a directory holding one file>> label=<<a symbol sequence that is a sentence of the grammar (parentheses, then !, then -a explicit or by juxtaposition, then -o, then ',') produces exactly the action outputs of the reference evaluation: left to right, -a/-o short-circuit, ',' yields its right side, -print added iff there is no action, nothing evaluated after -quit for this or any later file; every other sequence is rejected with a non-zero status and no output>>
+//@ harness e_expression kind=enum props=C01,C11 thorough_bound=<<every sequence of 0..=6 symbols over the same 12 symbols>> bound=<<every sequence of 0..=5 symbols over {-true, -false, -print, -printf 1, -printf '' (an action that prints nothing), -quit, !, -a, -o, ',', (, )} (12 symbols, 271453 command lines), evaluated on a directory holding one file>> label=<<a symbol sequence that is a sentence of the grammar (parentheses, then !, then -a explicit or by juxtaposition, then -o, then ',') produces exactly the action outputs of the reference evaluation: left to right, -a/-o short-circuit, ',' yields its right side, -print added iff there is no action, nothing evaluated after -quit for this or any later file; every other sequence is rejected with a non-zero status and no output>>
 #[cfg(verif_replay)]
 mod verif_enum_expr {
     use super::*;
@@ -10,7 +10,7 @@ mod verif_enum_expr {
 //@SHIM@
     #[derive(Clone, Debug)]
     enum Ast { True, False, Print, Printf(&'static str), Quit, Not(Box<Ast>), And(Vec<Ast>), Or(Vec<Ast>), List(Vec<Ast>) }
-    const SYMS: [&str; 11] = ["-true", "-false", "-print", "P1", "-quit", "!", "-a", "-o", ",", "(", ")"];
+    const SYMS: [&str; 12] = ["-true", "-false", "-print", "P1", "P0", "-quit", "!", "-a", "-o", ",", "(", ")"];
     // ---- the grammar of the statement ----
     struct P<'a> { t: &'a [&'static str], i: usize }
     impl P<'_> {
@@ -44,7 +44,7 @@ mod verif_enum_expr {
             let t = self.peek()?;
             self.i += 1;
             Some(match t {
-                "-true" => Ast::True, "-false" => Ast::False, "-print" => Ast::Print, "P1" => Ast::Printf("1"), "-quit" => Ast::Quit,
+                "-true" => Ast::True, "-false" => Ast::False, "-print" => Ast::Print, "P1" => Ast::Printf("1"), "P0" => Ast::Printf(""), "-quit" => Ast::Quit,
                 "(" => { let e = self.list()?; if self.peek() != Some(")") { return None; } self.i += 1; e }
                 _ => return None,
             })
@@ -83,7 +83,7 @@ mod verif_enum_expr {
         let t: PathBuf = d.join("t");
         let ts = t.to_str().unwrap().to_string();
         let mut args: Vec<&str> = vec!["find", &ts];
-        for k in &toks { if *k == "P1" { args.push("-printf"); args.push("1"); } else { args.push(k); } }
+        for k in &toks { if *k == "P1" { args.push("-printf"); args.push("1"); } else if *k == "P0" { args.push("-printf"); args.push(""); } else { args.push(k); } }
         let deps = FakeDependencies::new();
         let rc = find_main(&args, &deps);
         let got = String::from_utf8_lossy(deps.output.borrow().get_ref()).into_owned();
